@@ -40,6 +40,10 @@ theorem fact_lc_strict : srcCfg.lcStrict = true := by decide
 /-- an embedded `jwk` that is a private (EC/RSA/OKP) or symmetric key is refused -/
 theorem fact_jwk_public_only : srcCfg.jwkPublicOnly = true := by decide
 
+/-- `ParseTransaction` refuses bytes that are not a JWS serialization even where jws.Parse is tolerant (further
+    segments, padded / standard-alphabet base64, line breaks) -/
+theorem fact_strict_framing : srcCfg.strictFraming = true := by decide
+
 /-- the prevs verifier: starts at −1, keeps the maximum, demands `clock = max + 1` -/
 theorem fact_prev_verifier :
     Facts.C06.prevVerifierInit = ["-1"] ∧
@@ -86,6 +90,20 @@ theorem parse_sound (cfg : Cfg) (b64 : String → Bool) (h : Hdr) (tx : Tx)
 def lcWitness : Hdr :=
   { nSigs := 1, alg := "ES256", cty := "a/b", hasJwk := true, kid := none, payload := "", ref := 7,
     priv := [("sigt", .num 1 0), ("ver", .num 1 0), ("prevs", .arr []), ("lc", .num 3 (-1))] }
+
+/-- accepted bytes are a JWS serialization: JSON, or exactly three canonical unpadded base64url segments (for the source as
+    it is now, `fact_strict_framing`) — so a signed transaction cannot be re-framed into other bytes (other refs) by
+    appending segments or re-encoding a segment -/
+theorem accepted_bytes_are_a_jws_serialization (b64 : String → Bool) (h : Hdr) (tx : Tx)
+    (hp : parse srcCfg b64 h = .ok tx) : h.framingStrict = true :=
+  (parse_wellFormed hp).framing fact_strict_framing
+
+/-- without that guard such bytes parse (the code before the repair; witnesses in harness/corpus/C06) -/
+theorem lenient_framing_accepted_without_guard :
+    ∃ h tx, h.framingStrict = false ∧ parse { srcCfg with strictFraming := false } (fun _ => true) h = .ok tx :=
+  ⟨{ lcWitness with framingStrict := false, priv := [("sigt", .num 1 0), ("ver", .num 1 0), ("prevs", .arr []), ("lc", .num 0 0)] },
+   { ref := 7, alg := "ES256", payloadHash := 0, cty := "a/b", jwk := true, kid := "", sigt := 1, ver := 1, prevs := [], pal := [], clock := 0 },
+   rfl, by decide⟩
 
 /-- an accepted transaction never embeds private key material (for the source as it is now, `fact_jwk_public_only`) -/
 theorem embedded_key_is_public (b64 : String → Bool) (h : Hdr) (tx : Tx) (hp : parse srcCfg b64 h = .ok tx)
